@@ -5,7 +5,7 @@ use crate::prelude::{
 use crate::store::track_distance::TrackDistanceOkIterator;
 use crate::store::TrackStore;
 use crate::track::utils::FromVec;
-use crate::track::{Feature, Track};
+use crate::track::{Feature, Track, TrackStatus};
 use crate::trackers::batch::{PredictionBatchRequest, PredictionBatchResult, SceneTracks};
 use crate::trackers::epoch_db::EpochDb;
 use crate::trackers::sort::{
@@ -326,6 +326,8 @@ impl BatchVisualSort {
         store
             .lookup(VisualSortLookup::IdleLookup(scene_id))
             .iter()
+            // an expired track that the periodic collection has not moved out yet is not idle
+            .filter(|(_track_id, status)| !matches!(status, Ok(TrackStatus::Wasted)))
             .map(|(track_id, _status)| {
                 let shard = store.get_store(*track_id as usize);
                 let track = shard.get(track_id).unwrap();
